@@ -28,7 +28,9 @@ func init() {
 			"Oracle: no crash; on error the file is untouched; otherwise the AST with tags erased is unchanged, every prior tag key/value is kept, new indexes exceed every prior index of the struct and are pairwise distinct per field name, excluded fields get \"-\", unexported fields are untouched by default, the output is gofmt-stable, type-checks, plenc builds a codec for every fully tagged struct, and the second run changes nothing. non-trivial = file in which at least one field needs a new tag",
 		Assumptions: []string{"go/parser, go/format and go/types are the Go oracles; the binary is built from /repo/cmd/plenctag by bin/check and passed in VERIF_PLENCTAG"},
 		Work:        c20Work,
-		Post:        func(a *mc.Agg) []string { return needDims(a, "shape:single", "shape:multi", "shape:embedded", "shape:unexported", "shape:blank", "tag:none", "tag:plenc", "tag:malformed", "ctx:generic", "ctx:local", "flags:16", "second-run") },
+		Post: func(a *mc.Agg) []string {
+			return needDims(a, "shape:single", "shape:multi", "shape:embedded", "shape:unexported", "shape:blank", "tag:none", "tag:plenc", "tag:malformed", "ctx:generic", "ctx:local", "flags:16", "second-run")
+		},
 	})
 }
 
